@@ -283,7 +283,7 @@ func (s Schema) ParseStrings(to, from string, isNew bool, mkErr ErrorRender) (st
 	}
 	switch st := s.Type.(type) {
 	case SliceType:
-		if st.Items.Ref == nil && !st.Items.IsCustom() && !s.IsNullable() {
+		if st.Items.Ref == nil && !st.Items.IsCustom() && !st.Items.IsNullable() && !s.IsNullable() {
 			switch items := st.Items.Base().Type.(type) {
 			case Primitive:
 				switch items.PrimitiveIface.(type) {
@@ -336,7 +336,7 @@ func (s Schema) RenderFormatStrings(to, from string, isNew bool) (string, error)
 	}
 	switch st := s.Type.(type) {
 	case SliceType:
-		if st.Items.Ref == nil && !st.Items.IsCustom() && !s.IsNullable() {
+		if st.Items.Ref == nil && !st.Items.IsCustom() && !st.Items.IsNullable() && !s.IsNullable() {
 			switch items := st.Items.Base().Type.(type) {
 			case Primitive:
 				switch items.PrimitiveIface.(type) {
